@@ -154,6 +154,13 @@ func (b *Bucket) Load(batchSize int) ([]Entry, error) {
 	if b.NumEntries > maxEntriesPerBucket {
 		return nil, fmt.Errorf("refusing to load bucket with %d entries", b.NumEntries)
 	}
+	if b.NumEntries > 0 {
+		// NumEntries comes from the file: before reserving memory for that many entries, check that the last one is present.
+		var last [1]byte
+		if n, err := b.Entries.ReadAt(last[:], b.Entries.Size()-1); n < len(last) {
+			return nil, fmt.Errorf("bucket is shorter than its %d entries: %w", b.NumEntries, err)
+		}
+	}
 	entries := make([]Entry, 0, b.NumEntries)
 
 	stride := int(b.Stride)
